@@ -456,7 +456,7 @@ def direct(case):
                 seas = list(seas / seas.sum())
                 c = dict(base, STARTING_MONTH_NUM=5, BASELINE_CROP_KCALS=scale * rnd.uniform(0.1, 10), BASELINE_CROP_FAT=1.0, BASELINE_CROP_PROTEIN=1.0,
                          ADD_OUTDOOR_GROWING=True, OG_USE_BETTER_ROTATION=False, SEASONALITY=seas, COUNTRY_CODE=rnd.choice(["ARG", "ZAF", "JPN", "XXX"]),
-                         RATIO_INCREASED_CROP_AREA=1, INITIAL_HARVEST_DURATION_IN_MONTHS=8)
+                         RATIO_INCREASED_CROP_AREA=1, INITIAL_HARVEST_DURATION_IN_MONTHS=rnd.choice([8, 8, 9, 10, 12]))
                 for y in range(1, 12):
                     c["RATIO_CROPS_YEAR%d" % y] = rnd.choice([0, 1, rnd.uniform(0, 3), rnd.uniform(0, 1)])
 
